@@ -126,6 +126,9 @@ class C19(Prop):
             "tie_seed": d.randint(0, 1 << 30, "tie"),
             "items": ["item %d" % i for i in range(d.randint(1, 6, "nitems"))],
             "prewarm": d.chance(0.3, "prewarm"),
+            # a second index in the same process with ANOTHER embedding model and an equal cache configuration (what an application
+            # with different models for intents and for the knowledge base has): each index gets its own model's vectors
+            "sibling": d.chance(0.3, "sibling"),
         }
 
     def execute(self, sc):
@@ -171,6 +174,13 @@ class C19(Prop):
             embed_peer.set_world(None)
             await idx.add_items([IndexItem(text=t, meta={"i": i}) for i, t in enumerate(sc["items"])])
             await idx.build()
+            sib = None
+            sib_texts = [c["texts"][0] for c in sc["clients"] if c["texts"]][:3]
+            if sc.get("sibling") and sib_texts and (cache_cfg is None or knobs["cache"]["store"] == "in_memory"):
+                # (filesystem / sim_shared stores are one-model-per-store by assumption; in_memory stores belong to one index)
+                sib = BasicEmbeddingsIndex(embedding_model="sim-b", embedding_engine="SimEmbed", cache_config=cache_cfg, use_batching=False)
+                results["sibling-before"] = await sib._get_embeddings(list(sib_texts))
+                out.probe("sibling_index_with_other_model")
             if sc.get("prewarm") and cache_cfg:
                 await idx._get_embeddings([c["texts"][0] for c in sc["clients"] if c["texts"]][:2])
             embed_peer.set_world(world)
@@ -214,6 +224,9 @@ class C19(Prop):
             tasks = [asyncio.ensure_future(client(ci, c)) for ci, c in enumerate(sc["clients"])]
             if tasks:
                 await asyncio.gather(*tasks)
+            if sib is not None:
+                results["sibling-after"] = await sib._get_embeddings(list(sib_texts))
+                results["sibling-texts"] = sib_texts
             # full-before-hold probe: a batch started before its hold time elapsed
             return idx, loop.time() - t0
 
@@ -271,6 +284,14 @@ class C19(Prop):
                     want = [idx._items[i].text for i in nns[0]]
                     if r != want:
                         out.violate("wrong-vector", "search", "client %d search(%r) returned %r; searching with the model's own vector gives %r" % (ci, c["texts"][0], r, want))
+        for when in ("sibling-before", "sibling-after"):
+            if when in results:
+                st_texts = results.get("sibling-texts") or [c["texts"][0] for c in sc["clients"] if c["texts"]][:3]
+                want = [vec(t, "sim-b") for t in st_texts]
+                got = [list(x) if x is not None else None for x in results[when]]
+                if got != want:
+                    out.violate("wrong-vector", "sibling-index:%s:cache=%s" % (when, (knobs["cache"] or {}).get("store")),
+                                "the index with the other embedding model got %r for %r; its own model gives %r" % (_brief(got), st_texts, _brief(want)))
         if idx is not None and idx._req_results:
             # a leaked result is a result delivered to nobody: some request did not get its own vector
             out.probe("leaked_results")
